@@ -95,7 +95,9 @@ def counts (labels : List Nat) : List Nat :=
   ((List.range (m+1)).map fun c => (labels.filter (· == c)).length).filter (· != 0)
 
 /-- the `while` loop of `are_isomorphic` after the shape / nnz test.
-    `none` = numpy's ValueError: `counts1 != counts2` on arrays of different lengths does not broadcast. -/
+    `none` = numpy's ValueError: `counts1 != counts2` on arrays of different lengths does not broadcast —
+    unless one of them has length 1: then numpy broadcasts, and since both histograms sum to `n` the single
+    count `n` differs from every entry of the longer one, so `.any()` is true and the answer is `False`. -/
 def isoLoop (ops : HashOps H) (adj1 adj2 : List (List Nat)) :
     Nat → List Nat → List Nat → Bool → Bool → Option Bool
   | 0, _, _, _, _ => some true
@@ -103,16 +105,19 @@ def isoLoop (ops : HashOps H) (adj1 adj2 : List (List Nat)) :
     if c1 || c2 then
       let (l1', c1') := coloring ops adj1 1 l1 true
       let (l2', c2') := coloring ops adj2 1 l2 true
-      if (counts l1').length != (counts l2').length then none
+      if (counts l1').length != (counts l2').length then
+        (if (counts l1').length == 1 || (counts l2').length == 1 then some false else none)
       else if counts l1' != counts l2' then some false
       else isoLoop ops adj1 adj2 k l1' l2' c1' c2'
     else some true
 
 def nnz (adj : List (List Nat)) : Nat := (adj.map List.length).foldl (· + ·) 0
 
-/-- `are_isomorphic(adjacency1, adjacency2, max_iter)` -/
+/-- `are_isomorphic(adjacency1, adjacency2, max_iter)`; `none` = ValueError (a matrix without stored entries is
+    refused by `check_format`, which is called without `allow_empty` here, unlike in `color_weisfeiler_lehman`) -/
 def areIsomorphic (ops : HashOps H) (adj1 adj2 : List (List Nat)) (maxIter : Option Nat) : Option Bool :=
-  if adj1.length != adj2.length || nnz adj1 != nnz adj2 then some false
+  if nnz adj1 == 0 || nnz adj2 == 0 then none
+  else if adj1.length != adj2.length || nnz adj1 != nnz adj2 then some false
   else
     let n := adj1.length
     let k := match maxIter with
